@@ -5,13 +5,15 @@ set -u
 export GOFLAGS=-mod=mod GOPROXY=off GOSUMDB=off GOTOOLCHAIN=local
 id=$1; wt=$2; out=$3
 demo=$(ls $out/*_test.go | head -1); demoname=$(basename $demo)
-pkgdir=$(cd $wt && git status --short | grep "$demoname" | awk '{print $2}' | xargs dirname)
+pkgdir=$(cd $wt && git status --short | grep "$demoname" | awk '{print $2}' | xargs -r dirname)
+if [ -z "$pkgdir" ]; then echo "NOT-CONFIRMED: the demonstration $demoname is not in the worktree"; exit 1; fi
+keep=$(mktemp -d /tmp/cs_keep.XXXXXX)
 cd $wt
 res="{}"
 go build ./cache/... ./client/... ./database/... ./mapper/... ./model/... ./ovsdb/... ./server/... ./updates/... >/tmp/cs_build.log 2>&1; b=$?
-mv $pkgdir/$demoname /tmp/$demoname.keep
+mv $pkgdir/$demoname $keep/$demoname
 go test -vet=off -count=1 ./cache/ ./client/ ./database/... ./mapper/ ./model/ ./ovsdb/... ./server/ ./updates/ >/tmp/cs_suite.log 2>&1; s=$?
-mv /tmp/$demoname.keep $pkgdir/$demoname
+mv $keep/$demoname $pkgdir/$demoname; rmdir $keep
 go test -vet=off -count=1 -run 'Seeded' ./$pkgdir/ >/tmp/cs_demo_with.log 2>&1; dw=$?
 git stash -q -- $(git diff --name-only) ; 
 go test -vet=off -count=1 -run 'Seeded' ./$pkgdir/ >/tmp/cs_demo_without.log 2>&1; dwo=$?
@@ -21,5 +23,5 @@ if [ $b -eq 0 ] && [ $s -eq 0 ] && [ $dw -ne 0 ] && [ $dwo -eq 0 ]; then
   mkdir -p /verif/seeded/$id && cp $out/patch.diff $demo /verif/seeded/$id/ && cp $out/meta.json /verif/seeded/$id/meta.agent.json
   echo confirmed
 else
-  echo NOT-CONFIRMED; tail -5 /tmp/cs_suite.log /tmp/cs_demo_with.log /tmp/cs_demo_without.log
+  echo NOT-CONFIRMED; tail -n 5 /tmp/cs_suite.log /tmp/cs_demo_with.log /tmp/cs_demo_without.log
 fi
